@@ -800,7 +800,9 @@ class ConfigurableReference:
     return not self.__eq__(other)
 
   def __hash__(self):
-    return hash(repr(self))
+    # Consistent with `__eq__` (and independent of how the reference is spelled,
+    # which `repr` is not).
+    return hash((self._configurable.selector, self._evaluate))
 
   def __repr__(self):
     # Check if this reference is a macro or constant, i.e. @.../macro() or
